@@ -30,6 +30,10 @@ What is covered by correspondence + oracle only (runtime behaviour outside the m
     and a full device (`/dev/full`) are `std::filebuf` behaviour.  The driver prints `save=false` for them *by rule*
     (it does not model the file system); the oracle demands false from the real code.  `kind=ok` (a temporary file)
     is compared with the unlimited stream save byte for byte.
+  * `savefresh … file=1`: the file-name overload onto a real file that the operating system does not let grow
+    beyond k bytes (RLIMIT_FSIZE in the harness child; the crossing write is cut short with EFBIG).  This is where
+    the `stream.flush()` of the repair matters: without it the last buffered write is lost unnoticed.  The driver
+    answers by rule with the result of the model's budget-k save; only the result flag is compared.
   * an `elfio` object without header cannot be produced through the harness (only through the
     `elfio(compression_interface*)` constructor); `save_null_header` is proof-only.
 
@@ -64,8 +68,8 @@ RULE = ("objects: random writer programs (0-5 extra sections of type PROGBITS/NO
         "0..L+1 for the generated objects without page-aligned segments, the encoder-built images and the bundled "
         "examples <= 8 KB, and a boundary-biased sample (0, 1, header end +-1, program "
         "header table end, L-1, L, L+1, section-header-table boundaries, random) for larger ones; thorough = every k "
-        "for every generated and example object <= 64 KiB; plus unopenable paths and /dev/full through the file-name "
-        "overload; one case = one object with up to 400 (3000 in digest mode) failure points. non-trivial = a budgeted save with 0 < k < L that the stream cut short; distinct by md5 of the case")
+        "for every generated and example object <= 64 KiB; plus unopenable paths, /dev/full and files limited to k bytes "
+        "(k around L and the last section header) through the file-name overload; one case = one object with up to 400 (3000 in digest mode) failure points. non-trivial = a budgeted save with 0 < k < L that the stream cut short; distinct by md5 of the case")
 ASSUMPTIONS = ["std::ostream over vh::budget_buf / std::ostringstream behaves as Model/OStream.lean (validated by the "
                "correspondence on every case, not proved)",
                "file-name overload: std::filebuf and the operating system report open/write errors (ENOENT, EISDIR, "
@@ -278,6 +282,25 @@ def gen_cases(rng, tier):
         kinds.insert(rng.randint(kinds.index("ok") + 1, 3), "full")
         lines = build + ["savefresh out=sum"] + [f"savefile kind={k} out=sum" for k in kinds]
         yield {"id": f"file{i}", "lines": lines, "meta": {"kind": "file", "expect_ok": dom, "nbuild": len(build), "allk": False}}
+    # G. file-name overload onto a real file that cannot grow beyond k bytes (RLIMIT_FSIZE): here the final
+    # `flush()` of save() matters — the last write stays in the filebuf's buffer unless a seek follows it, so objects
+    # whose last write ends the file (last section without data, no segments) are forced in half of the cases
+    nG = 24 if quick else 200
+    for i in range(nG):
+        cls, enc = CFGS[i % 4]
+        build, est, dom = gen_program(rng, cls, enc)
+        if not (build and build[0].startswith("create")):
+            cls = 32
+        if i % 2 == 0:
+            build = [l for l in build if not l.startswith(("addseg", "segadd"))]
+            build.append(rng.choice([f"addsec name={hx(b'.bss')} type=8 flags=3 align=4 size={rng.randrange(64)}",
+                                     f"addsec name={hx(b'.e')} type=1 flags=0 align=1",
+                                     f"addsec name={hx(b'.n')} type=0 flags=0 align=0 data=0102"]))
+        js = sorted({1, 2, 3, SH[cls] - 1, SH[cls], SH[cls] + 1, 2 * SH[cls], rng.randint(1, 60), rng.randint(1, max(2, est))})
+        lines = build + ["savefresh out=sum", "savefresh file=1", "savefresh rel=0 file=1", "savefresh rel=7 file=1",
+                         "savefresh budget=0 file=1", f"savefresh budget={EH[cls]} file=1"] + \
+                [f"savefresh rel=-{j} file=1" for j in js]
+        yield {"id": f"lim{i}", "lines": lines, "meta": {"kind": "limited-file", "expect_ok": dom, "nbuild": len(build), "allk": False}}
     # F. the plain `save` op on one object: failed save, then retry on a good stream; observation afterwards
     nF = 16 if quick else 100
     for i in range(nF):
@@ -334,13 +357,24 @@ def budget_of(tok, L):
     return None
 
 
+def ref_index(lines):
+    """index of the reference save: the first `savefresh` without budget"""
+    for i, l in enumerate(lines):
+        t = l.split()
+        if t[0] == "savefresh" and not any(x.startswith("budget=") or x.startswith("rel=") for x in t[1:]):
+            return i
+    return None
+
+
 def oracle(case, out):
     v = []
     lines = case["lines"]; meta = case["meta"]
     for i, o in enumerate(out):
         if o.startswith("FAULT"):
             return [{"signature": "fault:" + lines[min(i, len(lines) - 1)].split()[0], "what": o}]
-    nb = meta["nbuild"]
+    nb = ref_index(lines)
+    if nb is None:
+        return []                      # (a shrunk case that lost its reference save: nothing to judge)
     if len(out) <= nb or not out[nb].startswith("save="):
         return [{"signature": "no-transcript", "what": f"no result for the unlimited save ({out[-1:] if out else ''})"}]
     full = parse_save(out[nb]); L = full[2]
@@ -382,6 +416,16 @@ def oracle(case, out):
             if r[0] or r[2] > min(k, L):
                 v.append({"signature": "refused-object-saved", "what": f"unlimited save returned false after {L} bytes, budget {k} gives save={r[0]} with {r[2]} bytes"})
             continue
+        if "file=1" in tok:
+            # file-name overload onto a file that cannot grow beyond k bytes: only the result is observed
+            if full[0] and k < L and r[0]:
+                v.append({"signature": "save-true-despite-failure:file",
+                          "what": f"file limited to {k} of {L} bytes: save(file name) returned true"})
+            if full[0] and k >= L and not r[0]:
+                v.append({"signature": "save-false-on-good-stream:file", "what": f"file limit {k} >= {L}: save(file name) returned false"})
+            if not full[0] and r[0]:
+                v.append({"signature": "refused-object-saved", "what": f"unlimited save returned false, limited file save true"})
+            continue
         if k < L:
             if r[0]:
                 v.append({"signature": "save-true-despite-failure",
@@ -408,7 +452,9 @@ def oracle(case, out):
 
 
 def nontrivial(case, out):
-    nb = case["meta"]["nbuild"]
+    nb = ref_index(case["lines"])
+    if nb is None:
+        return False
     if len(out) <= nb + 1 or not out[nb].startswith("save=true"):
         return False
     L = parse_save(out[nb])[2]
@@ -426,8 +472,8 @@ def nontrivial(case, out):
 def classify(case, out):
     m = case["meta"]
     ks = [m["kind"], "all-k" if m.get("allk") else "sampled-k"]
-    nb = m["nbuild"]
-    if len(out) > nb and out[nb].startswith("save="):
+    nb = ref_index(case["lines"])
+    if nb is not None and len(out) > nb and out[nb].startswith("save="):
         full = parse_save(out[nb]); L = full[2]
         ks.append("unlimited-save-true" if full[0] else "layout-refused")
         ks.append("len<=1K" if L <= 1024 else "len<=8K" if L <= 8192 else "len<=64K" if L <= 65536 else "len>64K")
